@@ -1,6 +1,6 @@
 (* C02 — register values round-trip exactly through the wire encoding. *)
 From GV Require Import Base.Bytes Base.Hex Base.LE Base.HexFacts Vedirect.Frame Vedirect.FrameFacts
-     Vedirect.Port Vedirect.Driver Vedirect.Resync Vedirect.ResyncFacts.
+     Vedirect.Port Vedirect.Driver Vedirect.Resync Vedirect.ResyncFacts Vedirect.SeqFacts.
 
 (* DRIVER LEVEL.  A fresh or idle driver; the device answers the first attempt with optional
    text-protocol noise (no ':') followed by the frame a conforming device sends for
@@ -15,6 +15,31 @@ Theorem C02_driver_roundtrip : forall c addr v pre body react s more,
   exists s', ve_command_get c true addr s = (Ok v, s') /\ nwrites (pt s') = S (nwrites (pt s)).
 Proof. exact conforming_exchange_returns_value. Qed.
 Print Assumptions C02_driver_roundtrip.
+
+(* HISTORIES.  Any sequence of typed reads (raw / unsigned / signed / string, idle or busy
+   line, any addresses) against a device that answers each command with noise-free-of-':'
+   followed by the conforming frame for that read, cut into data events in any way: the k-th
+   call returns exactly what the accessor's decoding of the k-th encoded payload is (signed:
+   an error for widths other than 1, 2, 4, 8), one command frame per call, and the driver is
+   drained again after each call.  run_calls is the function the correspondence check runs
+   against the implementation. *)
+Theorem C02_sequence : forall c (kxs : list (gkind * exch)) s more,
+  oks s -> st_items s = [] -> reactions (pt s) = map (fun kx => x_react (snd kx)) kxs ++ more ->
+  Forall (fun kx => conforming (snd kx)) kxs ->
+  let '(rs, s') := run_calls c (map (fun kx => (x_idle (snd kx), call_of (fst kx) (x_addr (snd kx)))) kxs) s in
+  rs = map (fun kx => expect_of (fst kx) (x_val (snd kx))) kxs /\
+  oks s' /\ st_items s' = [] /\ reactions (pt s') = more /\
+  nwrites (pt s') = (nwrites (pt s) + length kxs)%nat.
+Proof. exact conforming_typed_history. Qed.
+Print Assumptions C02_sequence.
+
+Theorem C02_sequence_raw : forall c xs s more,
+  oks s -> st_items s = [] -> reactions (pt s) = map x_react xs ++ more -> Forall conforming xs ->
+  let '(rs, s') := run_gets c xs s in
+  rs = map (fun x => Ok (x_val x)) xs /\ oks s' /\ st_items s' = [] /\ reactions (pt s') = more /\
+  nwrites (pt s') = (nwrites (pt s) + length xs)%nat.
+Proof. exact conforming_history_returns_values. Qed.
+Print Assumptions C02_sequence_raw.
 
 Theorem C02_uint :
   forall w n, (w <= 8)%nat -> 0 <= n < 256 ^ Z.of_nat w -> le_uint (le_encode w n) = n.
